@@ -21,6 +21,16 @@ type Step struct {
 	Pri  int    `json:"pri,omitempty"`
 	// add: go through the queue's Add*Anyway entry point (only where the model says the lane is not full)
 	Anyway bool `json:"anyway,omitempty"`
+	// which live instance the call goes to: 0 = the case's queue, 1.. = Case.Others
+	Q int `json:"q,omitempty"`
+}
+
+// OtherQ is a further queue of the case's type that is alive (and operated, with a model of its own) at the same
+// time as the case's queue.
+type OtherQ struct {
+	CapReq  int `json:"cap_req"`
+	CapCtrl int `json:"cap_ctrl,omitempty"`
+	Ctor    int `json:"ctor,omitempty"`
 }
 
 type Case struct {
@@ -30,6 +40,11 @@ type Case struct {
 	// the way the constructor call is written (qadapt.Ctor*): all ways ask for the same queue
 	Ctor  int    `json:"ctor,omitempty"`
 	Steps []Step `json:"steps"`
+	// further live instances of the same type (steps with Q > 0 go to them)
+	Others []OtherQ `json:"others,omitempty"`
+	// when the instances are built: 0 = all before the first step, in order; 1 = all before the first step, the
+	// case's queue last; 2 = each right before its first step
+	Build int `json:"build,omitempty"`
 }
 
 // ---------------------------------------------------------------------------
@@ -62,15 +77,37 @@ func (m *fifoModel) take() int {
 // blocking reports whether a pop of the given flavour would block (never issued here: that is C13)
 func (m *fifoModel) blocking() bool { return m.empty() && !m.closed }
 
+// genOthers draws the further live instances of a case (most cases have none).
+func genOthers(t *rapid.T, caps []int, ctrlCaps []int) (others []OtherQ, build int) {
+	n := rapid.IntRange(0, 9).Draw(t, "others") - 6 // 0-6: none, 7: one, 8: two, 9: three
+	for i := 0; i < n; i++ {
+		o := OtherQ{CapReq: rapid.SampledFrom(caps).Draw(t, "ocapreq"), Ctor: rapid.IntRange(0, qadapt.NCtors-1).Draw(t, "octor")}
+		if ctrlCaps != nil {
+			o.CapCtrl = rapid.SampledFrom(ctrlCaps).Draw(t, "ocapctrl")
+		}
+		others = append(others, o)
+	}
+	if n > 0 {
+		build = rapid.IntRange(0, 2).Draw(t, "build")
+	}
+	return others, build
+}
+
 func genFifo(t *rapid.T, kind string) Case {
 	c := Case{Kind: kind}
 	c.CapReq = rapid.SampledFrom([]int{0, 1, 2, 3, 5}).Draw(t, "capreq")
 	c.CapCtrl = rapid.SampledFrom([]int{0, 1, 2}).Draw(t, "capctrl")
 	c.Ctor = rapid.IntRange(0, qadapt.NCtors-1).Draw(t, "ctor")
-	m := &fifoModel{kind: kind, caps: [2]int{c.CapReq, c.CapCtrl}}
+	c.Others, c.Build = genOthers(t, []int{0, 1, 2, 3, 5}, []int{0, 1, 2})
 	isSync, isMQ := kind == qadapt.KindSync, kind == qadapt.KindMQ
+	ms := []*fifoModel{{kind: kind, caps: [2]int{c.CapReq, c.CapCtrl}}}
+	for _, o := range c.Others {
+		ms = append(ms, &fifoModel{kind: kind, caps: [2]int{o.CapReq, o.CapCtrl}})
+	}
 	if isSync {
-		m.caps = [2]int{}
+		for _, m := range ms {
+			m.caps = [2]int{}
+		}
 	}
 	n := rapid.IntRange(1, 40).Draw(t, "n")
 	for i := 0; i < n; i++ {
@@ -95,11 +132,15 @@ func genFifo(t *rapid.T, kind string) Case {
 		if op == "add" && !isSync && rapid.IntRange(0, 3).Draw(t, "anywayadd") == 0 {
 			st.Anyway = true // through Add*Anyway (where the lane is not full)
 		}
+		if len(ms) > 1 {
+			st.Q = rapid.IntRange(0, len(ms)-1).Draw(t, "q")
+		}
+		m := ms[st.Q]
 		// fold the model so that a blocking pop is never issued
 		switch op {
 		case "pop", "popanyway":
 			if m.blocking() {
-				st = Step{Op: "add"}
+				st = Step{Op: "add", Q: st.Q}
 				op = "add"
 			}
 		}
@@ -176,31 +217,284 @@ func applyFifo(m *fifoModel, st Step, v int, isSync bool) (e fifoExpect) {
 	return e
 }
 
+// fifoInst is one live FIFO-like queue with its model.
+type fifoInst struct {
+	q      *qadapt.Q
+	m      *fifoModel
+	kind   string
+	isSync bool
+	// conservation bookkeeping of the step parts (nil: the caller's items are all distinct and every hand-out is
+	// compared with the model's head, which already excludes duplicates and inventions)
+	accepted, handed map[int]bool
+}
+
+func newFifoInst(kind string, capReq, capCtrl, ctor int, books bool) *fifoInst {
+	in := &fifoInst{kind: kind, isSync: kind == qadapt.KindSync}
+	in.q = qadapt.NewCtor(kind, capReq, capCtrl, anywayPause, ctor)
+	in.m = &fifoModel{kind: kind, caps: [2]int{capReq, capCtrl}}
+	if in.isSync {
+		in.m.caps = [2]int{}
+	}
+	if kind != qadapt.KindMQ {
+		in.m.caps[1] = 0
+	}
+	if books {
+		in.accepted, in.handed = map[int]bool{}, map[int]bool{}
+	}
+	return in
+}
+
+func (in *fifoInst) size() int { return len(in.m.lanes[0]) + len(in.m.lanes[1]) }
+
+func (in *fifoInst) give(res *vkit.Result, what func() string, v int) bool {
+	if in.handed == nil {
+		return true
+	}
+	if in.handed[v] {
+		res.Failf("duplicate", "%s: item %d handed out twice", what(), v)
+		return false
+	}
+	if !in.accepted[v] {
+		res.Failf("invented", "%s: item %d was handed out but never accepted", what(), v)
+		return false
+	}
+	in.handed[v] = true
+	return true
+}
+
+// step issues one call (never a blocking one: those are skipped) and compares its result and the observers with the
+// model. false: a failure was recorded.
+func (in *fifoInst) step(res *vkit.Result, st Step, v int, what func() string) bool {
+	q, m, isSync := in.q, in.m, in.isSync
+	switch st.Op {
+	case "add", "prior":
+		add := q.Add
+		if st.Op == "prior" {
+			if q.AddPrior == nil {
+				res.Skip("no-prior")
+				return true
+			}
+			add = q.AddPrior
+		}
+		wasClosed := m.closed
+		e := applyFifo(m, st, v, isSync)
+		if st.Op == "add" && st.Anyway && q.AddAnyway != nil && e.outcome != qadapt.Full {
+			// (on a full lane the Anyway entry points retry forever: a blocking call, not part of sequential histories)
+			res.Class("add-through-anyway-entry")
+			add = q.AddAnyway // (should it poll, the guard around the history decides)
+		}
+		got := add(st.Lane, v)
+		if got != e.outcome {
+			site := "add-outcome"
+			if e.outcome == qadapt.Full || got == qadapt.Full {
+				site = "capacity"
+			} else if e.outcome == qadapt.Closed || got == qadapt.Closed {
+				site = "add-after-close"
+			}
+			// (the model has already taken the item in: say what it held before)
+			res.Failf(site, "%s: outcome %v, want %v", what(), got, e.outcome)
+			return false
+		}
+		if got == qadapt.Accepted && !(isSync && wasClosed) && in.accepted != nil {
+			in.accepted[v] = true
+		}
+		switch e.outcome {
+		case qadapt.Full:
+			res.Class("refused-at-capacity")
+			res.NonTrivial = true
+		case qadapt.Closed:
+			res.Class("refused-closed")
+		}
+		if st.Op == "prior" && e.outcome == qadapt.Accepted && m.caps[st.Lane] > 0 && len(m.lanes[st.Lane]) > m.caps[st.Lane] {
+			res.Class("prior-exceeds-bound")
+		}
+		if isSync && wasClosed {
+			res.Class("dropped-silently")
+		}
+	case "pop", "popanyway":
+		if m.blocking() {
+			res.Skip("would-block")
+			return true
+		}
+		e := applyFifo(m, st, v, isSync)
+		pop := q.Pop
+		if st.Op == "popanyway" {
+			pop = q.PopAnyway
+		}
+		gv, gclosed, err := pop()
+		if err != nil {
+			res.Failf("pop-error", "%s: %v", what(), err)
+			return false
+		}
+		if gclosed != e.closed || (!gclosed && gv != e.v) {
+			site := "order"
+			if gclosed != e.closed {
+				site = "pop-after-close"
+			}
+			res.Failf(site, "%s: got (item %d, closed %v), want (item %d, closed %v)", what(), gv, gclosed, e.v, e.closed)
+			return false
+		}
+		if !gclosed && !in.give(res, what, gv) {
+			return false
+		}
+		if e.closed && !m.empty() {
+			res.Class("pop-refused-with-items-after-close")
+		}
+		if !e.closed && m.closed {
+			res.Class("drain-after-close")
+		}
+	case "trypop":
+		if q.TryPop == nil {
+			res.Skip("no-trypop")
+			return true
+		}
+		e := applyFifo(m, st, v, isSync)
+		gv, gok, gclosed := q.TryPop()
+		if gok != e.ok || gclosed != e.closed || (gok && !gclosed && gv != e.v) {
+			res.Failf("trypop", "%s: got (item %d, ok %v, closed %v), want (item %d, ok %v, closed %v)", what(), gv, gok, gclosed, e.v, e.ok, e.closed)
+			return false
+		}
+		if gok && !gclosed && !in.give(res, what, gv) {
+			return false
+		}
+	case "close":
+		if !m.closed && !m.empty() {
+			res.Class("close-with-residue")
+			res.NonTrivial = true
+		}
+		applyFifo(m, st, v, isSync)
+		q.Close()
+	case "tryclose":
+		if q.TryClose == nil {
+			res.Skip("no-tryclose")
+			return true
+		}
+		e := applyFifo(m, st, v, isSync)
+		got := q.TryClose()
+		if !e.anyBool && got != e.boolRes {
+			res.Failf("tryclose", "%s: TryClose = %v, want %v", what(), got, e.boolRes)
+			return false
+		}
+	case "tryclear":
+		if q.TryClear == nil {
+			res.Skip("no-tryclear")
+			return true
+		}
+		e := applyFifo(m, st, v, isSync)
+		got := q.TryClear()
+		if got != e.boolRes {
+			res.Failf("tryclear", "%s: TryClear = %v, want %v", what(), got, e.boolRes)
+			return false
+		}
+		if got {
+			res.Class("cleared")
+		}
+	case "observe":
+	default:
+		res.Skip("unknown-op")
+		return true
+	}
+	// observers after every step
+	if q.IsClosed != nil && q.IsClosed() != m.closed {
+		res.Failf("isclosed", "%s: afterwards IsClosed = %v, model %v", what(), q.IsClosed(), m.closed)
+		return false
+	}
+	if q.IsCleared != nil && q.IsCleared() != m.cleared {
+		res.Failf("iscleared", "%s: afterwards IsCleared = %v, model %v", what(), q.IsCleared(), m.cleared)
+		return false
+	}
+	if q.Len != nil && q.Len() != len(m.lanes[0])+len(m.lanes[1]) {
+		res.Failf("len", "%s: afterwards Len = %d, model %d", what(), q.Len(), len(m.lanes[0])+len(m.lanes[1]))
+		return false
+	}
+	return true
+}
+
+// finish: conservation - close, then drain in order; accepted == handed out + residue.
+func (in *fifoInst) finish(res *vkit.Result, name string, cur *func() string) bool {
+	q, m := in.q, in.m
+	*cur = func() string {
+		return fmt.Sprintf("final close and drain of %s (model holds req %d ctrl %d items)", name, len(m.lanes[0]), len(m.lanes[1]))
+	}
+	what := func() string { return "final drain of " + name }
+	q.Close()
+	m.closed = true
+	for !m.empty() {
+		want := m.take()
+		gv, gclosed, err := q.PopAnyway()
+		if err != nil || gclosed || gv != want {
+			res.Failf("residue", "final drain of %s: got (item %d, closed %v, err %v), want item %d", name, gv, gclosed, err, want)
+			return false
+		}
+		if !in.give(res, what, gv) {
+			return false
+		}
+	}
+	if _, gclosed, err := q.PopAnyway(); err != nil || !gclosed {
+		res.Failf("residue", "final drain of %s: the queue hands out more than was accepted", name)
+		return false
+	}
+	for v := range in.accepted {
+		if !in.handed[v] {
+			res.Failf("lost", "%s: item %d was accepted but never handed out", name, v)
+			return false
+		}
+	}
+	return true
+}
+
+// instCfgs lists the configurations of a case's instances (index 0 = the case's queue) and the order they are
+// built in up front (nil entries of the returned slice of instances are built at their first step).
+func instCfgs(c Case) []OtherQ {
+	return append([]OtherQ{{CapReq: c.CapReq, CapCtrl: c.CapCtrl, Ctor: c.Ctor}}, c.Others...)
+}
+
+func buildOrder(n, build int) []int {
+	var order []int
+	switch build {
+	case 0:
+		for i := 0; i < n; i++ {
+			order = append(order, i)
+		}
+	case 1:
+		for i := 1; i < n; i++ {
+			order = append(order, i)
+		}
+		order = append(order, 0)
+	}
+	return order
+}
+
+func instName(kind string, i, n int) string {
+	if n == 1 {
+		return kind
+	}
+	return fmt.Sprintf("%s (instance %d of %d live ones)", kind, i, n)
+}
+
 func execFifo(c Case, res *vkit.Result, cur *func() string, release *func()) *vkit.Result {
-	q := qadapt.NewCtor(c.Kind, c.CapReq, c.CapCtrl, anywayPause, c.Ctor)
-	*release = q.Close
+	cfgs := instCfgs(c)
+	insts := make([]*fifoInst, len(cfgs))
+	*release = func() {
+		for _, in := range insts {
+			if in != nil {
+				in.q.Close()
+			}
+		}
+	}
+	mk := func(i int) {
+		insts[i] = newFifoInst(c.Kind, cfgs[i].CapReq, cfgs[i].CapCtrl, cfgs[i].Ctor, true)
+	}
+	for _, i := range buildOrder(len(cfgs), c.Build) {
+		mk(i)
+	}
 	if c.Ctor != qadapt.CtorPlain {
 		res.Class(fmt.Sprintf("constructor-written-way-%d", c.Ctor))
 	}
-	isSync := c.Kind == qadapt.KindSync
-	m := &fifoModel{kind: c.Kind, caps: [2]int{c.CapReq, c.CapCtrl}}
-	if isSync {
-		m.caps = [2]int{}
+	if len(cfgs) > 1 {
+		res.Class(fmt.Sprintf("%d-live-instances", len(cfgs)))
 	}
-	accepted := map[int]bool{}
-	handed := map[int]bool{}
-	give := func(i int, st Step, v int) bool {
-		if handed[v] {
-			res.Failf("duplicate", "step %d %+v on %s: item %d handed out twice", i, st, c.Kind, v)
-			return false
-		}
-		if !accepted[v] {
-			res.Failf("invented", "step %d %+v on %s: item %d was handed out but never accepted", i, st, c.Kind, v)
-			return false
-		}
-		handed[v] = true
-		return true
-	}
+	used := map[int]bool{}
 	for i, st := range c.Steps {
 		if c.Kind != qadapt.KindMQ {
 			st.Lane = qadapt.LaneReq
@@ -209,163 +503,37 @@ func execFifo(c Case, res *vkit.Result, cur *func() string, release *func()) *vk
 			res.Skip("bad-lane")
 			continue
 		}
-		v := 1000 + i
-		what := fmt.Sprintf("step %d %+v on %s (cap req %d ctrl %d; model req %v ctrl %v closed %v)", i, st, c.Kind, c.CapReq, c.CapCtrl, m.lanes[0], m.lanes[1], m.closed)
-		*cur = func() string { return what }
-		switch st.Op {
-		case "add", "prior":
-			add := q.Add
-			if st.Op == "prior" {
-				if q.AddPrior == nil {
-					res.Skip("no-prior")
-					continue
-				}
-				add = q.AddPrior
-			}
-			wasClosed := m.closed
-			e := applyFifo(m, st, v, isSync)
-			if st.Op == "add" && st.Anyway && q.AddAnyway != nil && e.outcome != qadapt.Full {
-				// (on a full lane the Anyway entry points retry forever: a blocking call, not part of sequential histories)
-				res.Class("add-through-anyway-entry")
-				add = q.AddAnyway // (should it poll, the guard around the history decides)
-			}
-			got := add(st.Lane, v)
-			if got != e.outcome {
-				site := "add-outcome"
-				if e.outcome == qadapt.Full || got == qadapt.Full {
-					site = "capacity"
-				} else if e.outcome == qadapt.Closed || got == qadapt.Closed {
-					site = "add-after-close"
-				}
-				return res.Failf(site, "%s: outcome %v, want %v", what, got, e.outcome)
-			}
-			if got == qadapt.Accepted && !(isSync && wasClosed) {
-				accepted[v] = true
-			}
-			switch e.outcome {
-			case qadapt.Full:
-				res.Class("refused-at-capacity")
-				res.NonTrivial = true
-			case qadapt.Closed:
-				res.Class("refused-closed")
-			}
-			if st.Op == "prior" && e.outcome == qadapt.Accepted && m.caps[st.Lane] > 0 && len(m.lanes[st.Lane]) > m.caps[st.Lane] {
-				res.Class("prior-exceeds-bound")
-			}
-			if isSync && wasClosed {
-				res.Class("dropped-silently")
-			}
-		case "pop", "popanyway":
-			if m.blocking() {
-				res.Skip("would-block")
-				continue
-			}
-			e := applyFifo(m, st, v, isSync)
-			pop := q.Pop
-			if st.Op == "popanyway" {
-				pop = q.PopAnyway
-			}
-			gv, gclosed, err := pop()
-			if err != nil {
-				return res.Failf("pop-error", "%s: %v", what, err)
-			}
-			if gclosed != e.closed || (!gclosed && gv != e.v) {
-				site := "order"
-				if gclosed != e.closed {
-					site = "pop-after-close"
-				}
-				return res.Failf(site, "%s: got (item %d, closed %v), want (item %d, closed %v)", what, gv, gclosed, e.v, e.closed)
-			}
-			if !gclosed && !give(i, st, gv) {
-				return res
-			}
-			if e.closed && !m.empty() {
-				res.Class("pop-refused-with-items-after-close")
-			}
-			if !e.closed && m.closed {
-				res.Class("drain-after-close")
-			}
-		case "trypop":
-			if q.TryPop == nil {
-				res.Skip("no-trypop")
-				continue
-			}
-			e := applyFifo(m, st, v, isSync)
-			gv, gok, gclosed := q.TryPop()
-			if gok != e.ok || gclosed != e.closed || (gok && !gclosed && gv != e.v) {
-				return res.Failf("trypop", "%s: got (item %d, ok %v, closed %v), want (item %d, ok %v, closed %v)", what, gv, gok, gclosed, e.v, e.ok, e.closed)
-			}
-			if gok && !gclosed && !give(i, st, gv) {
-				return res
-			}
-		case "close":
-			if !m.closed && !m.empty() {
-				res.Class("close-with-residue")
-				res.NonTrivial = true
-			}
-			applyFifo(m, st, v, isSync)
-			q.Close()
-		case "tryclose":
-			if q.TryClose == nil {
-				res.Skip("no-tryclose")
-				continue
-			}
-			e := applyFifo(m, st, v, isSync)
-			got := q.TryClose()
-			if !e.anyBool && got != e.boolRes {
-				return res.Failf("tryclose", "%s: TryClose = %v, want %v", what, got, e.boolRes)
-			}
-		case "tryclear":
-			if q.TryClear == nil {
-				res.Skip("no-tryclear")
-				continue
-			}
-			e := applyFifo(m, st, v, isSync)
-			got := q.TryClear()
-			if got != e.boolRes {
-				return res.Failf("tryclear", "%s: TryClear = %v, want %v", what, got, e.boolRes)
-			}
-			if got {
-				res.Class("cleared")
-			}
-		case "observe":
-		default:
-			res.Skip("unknown-op")
+		if st.Q < 0 || st.Q >= len(cfgs) {
+			res.Skip("bad-instance")
 			continue
 		}
-		// observers after every step
-		if q.IsClosed != nil && q.IsClosed() != m.closed {
-			return res.Failf("isclosed", "%s: IsClosed = %v, model %v", what, q.IsClosed(), m.closed)
+		if insts[st.Q] == nil {
+			mk(st.Q)
 		}
-		if q.IsCleared != nil && q.IsCleared() != m.cleared {
-			return res.Failf("iscleared", "%s: IsCleared = %v, model %v", what, q.IsCleared(), m.cleared)
+		in := insts[st.Q]
+		used[st.Q] = true
+		if len(used) > 1 {
+			res.Class("calls-on-several-live-instances")
 		}
-		if q.Len != nil && q.Len() != len(m.lanes[0])+len(m.lanes[1]) {
-			return res.Failf("len", "%s: Len = %d, model %d", what, q.Len(), len(m.lanes[0])+len(m.lanes[1]))
+		v := 1000 + i
+		// (formatted only when somebody asks; the model state is the one before the call)
+		before := [2][]int{in.m.lanes[0], in.m.lanes[1]}
+		wasClosed := in.m.closed
+		cfg := cfgs[st.Q]
+		what := func() string {
+			return fmt.Sprintf("step %d %+v on %s (cap req %d ctrl %d; model before the call: req %v ctrl %v closed %v)", i, st, instName(c.Kind, st.Q, len(cfgs)), cfg.CapReq, cfg.CapCtrl, before[0], before[1], wasClosed)
 		}
-	}
-	// conservation: close, then drain in order; accepted == handed out + residue
-	*cur = func() string {
-		return fmt.Sprintf("final close and drain of %s (model req %v ctrl %v)", c.Kind, m.lanes[0], m.lanes[1])
-	}
-	q.Close()
-	m.closed = true
-	for !m.empty() {
-		want := m.take()
-		gv, gclosed, err := q.PopAnyway()
-		if err != nil || gclosed || gv != want {
-			return res.Failf("residue", "final drain of %s: got (item %d, closed %v, err %v), want item %d", c.Kind, gv, gclosed, err, want)
-		}
-		if !give(len(c.Steps), Step{Op: "drain"}, gv) {
+		*cur = what
+		if !in.step(res, st, v, what) {
 			return res
 		}
 	}
-	if _, gclosed, err := q.PopAnyway(); err != nil || !gclosed {
-		return res.Failf("residue", "final drain of %s: the queue hands out more than was accepted", c.Kind)
-	}
-	for v := range accepted {
-		if !handed[v] {
-			return res.Failf("lost", "%s: item %d was accepted but never handed out", c.Kind, v)
+	for i := range insts {
+		if insts[i] == nil {
+			mk(i)
+		}
+		if !insts[i].finish(res, instName(c.Kind, i, len(cfgs)), cur) {
+			return res
 		}
 	}
 	return res
@@ -391,62 +559,100 @@ func genPri(t *rapid.T) Case {
 	if rapid.Bool().Draw(t, "decoy") {
 		c.Ctor = qadapt.CtorDecoy
 	}
+	c.Others, c.Build = genOthers(t, []int{0, 1, 2, 3, 5, 8}, nil)
 	n := rapid.IntRange(1, 40).Draw(t, "n")
 	for i := 0; i < n; i++ {
+		var st Step
 		if rapid.IntRange(0, 9).Draw(t, "what") < 6 {
-			c.Steps = append(c.Steps, Step{Op: "push", Pri: genPriority(t)})
+			st = Step{Op: "push", Pri: genPriority(t)}
 		} else {
-			c.Steps = append(c.Steps, Step{Op: "poppri"})
+			st = Step{Op: "poppri"}
 		}
+		if len(c.Others) > 0 {
+			st.Q = rapid.IntRange(0, len(c.Others)).Draw(t, "q")
+		}
+		c.Steps = append(c.Steps, st)
 	}
 	return c
 }
 
-func execPri(c Case, res *vkit.Result, cur *func() string, release *func()) *vkit.Result {
-	q := qadapt.NewCtor(qadapt.KindPri, c.CapReq, 0, anywayPause, c.Ctor)
-	var model []priEntry
-	seq := 0
-	best := func() int {
-		b := -1
-		for i, e := range model {
-			if b < 0 || e.pri > model[b].pri || (e.pri == model[b].pri && e.seq < model[b].seq) {
-				b = i
-			}
+// priInst is one live priority queue with its model.
+type priInst struct {
+	q     *qadapt.Q
+	cap   int
+	name  string
+	model []priEntry
+	seq   int
+}
+
+func (in *priInst) best() int {
+	b := -1
+	for i, e := range in.model {
+		if b < 0 || e.pri > in.model[b].pri || (e.pri == in.model[b].pri && e.seq < in.model[b].seq) {
+			b = i
 		}
-		return b
 	}
-	pop := func(i int, st Step) bool {
-		gv, gpri, ok := q.PopPri()
-		b := best()
-		if b < 0 {
-			if ok {
-				res.Failf("pri-invented", "step %d %+v: Pop on an empty queue returned item %d", i, st, gv)
-				return false
-			}
-			return true
-		}
-		want := model[b]
-		if !ok || gv != want.v || gpri != want.pri {
-			res.Failf("pri-order", "step %d %+v: Pop = (item %d, priority %d, ok %v), want item %d priority %d (highest priority, first in among equals; model %v)", i, st, gv, gpri, ok, want.v, want.pri, model)
+	return b
+}
+
+func (in *priInst) pop(res *vkit.Result, i int, st Step) bool {
+	gv, gpri, ok := in.q.PopPri()
+	b := in.best()
+	if b < 0 {
+		if ok {
+			res.Failf("pri-invented", "step %d %+v on %s: Pop on an empty queue returned item %d", i, st, in.name, gv)
 			return false
 		}
-		ties := 0
-		for _, e := range model {
-			if e.pri == want.pri {
-				ties++
-			}
-		}
-		if ties > 1 {
-			res.Class("tie-broken-fifo")
-		}
-		model = append(model[:b:b], model[b+1:]...)
 		return true
 	}
+	want := in.model[b]
+	if !ok || gv != want.v || gpri != want.pri {
+		res.Failf("pri-order", "step %d %+v on %s: Pop = (item %d, priority %d, ok %v), want item %d priority %d (highest priority, first in among equals; model %v)", i, st, in.name, gv, gpri, ok, want.v, want.pri, in.model)
+		return false
+	}
+	ties := 0
+	for _, e := range in.model {
+		if e.pri == want.pri {
+			ties++
+		}
+	}
+	if ties > 1 {
+		res.Class("tie-broken-fifo")
+	}
+	in.model = append(in.model[:b:b], in.model[b+1:]...)
+	return true
+}
+
+func execPri(c Case, res *vkit.Result, cur *func() string, release *func()) *vkit.Result {
+	cfgs := instCfgs(c)
+	insts := make([]*priInst, len(cfgs))
+	mk := func(i int) {
+		insts[i] = &priInst{q: qadapt.NewCtor(qadapt.KindPri, cfgs[i].CapReq, 0, anywayPause, cfgs[i].Ctor), cap: cfgs[i].CapReq, name: instName(c.Kind, i, len(cfgs))}
+	}
+	for _, i := range buildOrder(len(cfgs), c.Build) {
+		mk(i)
+	}
+	if len(cfgs) > 1 {
+		res.Class(fmt.Sprintf("%d-live-instances", len(cfgs)))
+	}
+	used := map[int]bool{}
 	for i, st := range c.Steps {
+		if st.Q < 0 || st.Q >= len(cfgs) {
+			res.Skip("bad-instance")
+			continue
+		}
+		if insts[st.Q] == nil {
+			mk(st.Q)
+		}
+		in := insts[st.Q]
+		used[st.Q] = true
+		if len(used) > 1 {
+			res.Class("calls-on-several-live-instances")
+		}
 		switch st.Op {
 		case "push":
 			want := qadapt.Accepted
-			if len(model) >= c.CapReq {
+			if len(in.model) >= in.cap {
 				want = qadapt.Full
 				res.Class("refused-at-capacity")
 				res.NonTrivial = true
@@ -454,33 +660,39 @@ func execPri(c Case, res *vkit.Result, cur *func() string, release *func()) *vki
 			if st.Pri > 1<<30 || st.Pri < -(1<<30) {
 				res.Class("extreme-priority")
 			}
-			got := q.PushPri(1000+i, st.Pri)
+			got := in.q.PushPri(1000+i, st.Pri)
 			if got != want {
-				return res.Failf("pri-capacity", "step %d %+v: Push outcome %v, want %v (holding %d, capacity %d)", i, st, got, want, len(model), c.CapReq)
+				return res.Failf("pri-capacity", "step %d %+v on %s: Push outcome %v, want %v (holding %d, capacity %d)", i, st, in.name, got, want, len(in.model), in.cap)
 			}
 			if got == qadapt.Accepted {
-				seq++
-				model = append(model, priEntry{1000 + i, st.Pri, seq})
+				in.seq++
+				in.model = append(in.model, priEntry{1000 + i, st.Pri, in.seq})
 			}
 		case "poppri":
-			if !pop(i, st) {
+			if !in.pop(res, i, st) {
 				return res
 			}
 		default:
 			res.Skip("unknown-op")
 			continue
 		}
-		if q.Len() != len(model) {
-			return res.Failf("pri-len", "step %d %+v: Len = %d, model %d", i, st, q.Len(), len(model))
+		if in.q.Len() != len(in.model) {
+			return res.Failf("pri-len", "step %d %+v on %s: Len = %d, model %d", i, st, in.name, in.q.Len(), len(in.model))
 		}
 	}
-	for len(model) > 0 {
-		if !pop(len(c.Steps), Step{Op: "drain"}) {
-			return res
+	for i := range insts {
+		if insts[i] == nil {
+			mk(i)
 		}
-	}
-	if _, _, ok := q.PopPri(); ok {
-		return res.Failf("pri-invented", "final drain: the queue hands out more than was accepted")
+		in := insts[i]
+		for len(in.model) > 0 {
+			if !in.pop(res, len(c.Steps), Step{Op: "drain", Q: i}) {
+				return res
+			}
+		}
+		if _, _, ok := in.q.PopPri(); ok {
+			return res.Failf("pri-invented", "final drain of %s: the queue hands out more than was accepted", in.name)
+		}
 	}
 	return res
 }
@@ -504,9 +716,15 @@ func Exec(c Case) *vkit.Result {
 			ok = true
 		}
 	}
-	if !ok || c.CapReq < 0 || c.CapCtrl < 0 || c.CapReq > 1000 || c.CapCtrl > 1000 || c.Ctor < 0 || c.Ctor >= qadapt.NCtors {
+	if !ok || c.CapReq < 0 || c.CapCtrl < 0 || c.CapReq > 1000 || c.CapCtrl > 1000 || c.Ctor < 0 || c.Ctor >= qadapt.NCtors || len(c.Others) > 8 || c.Build < 0 || c.Build > 2 {
 		res.Skip("malformed-config")
 		return res
+	}
+	for _, o := range c.Others {
+		if o.CapReq < 0 || o.CapCtrl < 0 || o.CapReq > 1000 || o.CapCtrl > 1000 || o.Ctor < 0 || o.Ctor >= qadapt.NCtors {
+			res.Skip("malformed-config")
+			return res
+		}
 	}
 	return guarded(func(res *vkit.Result, cur *func() string, release *func()) {
 		if c.Kind == qadapt.KindPri {
